@@ -46,6 +46,8 @@ mod erased_future;
 mod future_deque;
 mod future_deque_core;
 mod local_future_deque;
+#[cfg(folo_verif)]
+pub mod verif;
 mod waker_meta;
 
 pub use future_deque::*;
